@@ -21,7 +21,11 @@ def expected_code(code):
     return code if 1 <= code <= 35 else -1
 
 
-ALL_CODES = list(range(-1, 36)) + [36, 127, 128, 255, 256, 32767, -2, -128, -129, -32768]
+# every declared code, the boundaries of the i8 / u8 / i16 ranges, and unmapped 16-bit codes whose LOW byte is a declared code
+# (0x0101 = 257 -> low byte 1, 0x0103 -> 3, 0x010e -> 14, 0x010f -> 15, 0x0110 -> 16, 0x0123 -> 35, 0x7f01, and the negative
+# ones -255 = 0xff01, -253 = 0xff03, -242 = 0xff0e, -240 = 0xff10): a check on the truncated byte would map them to declared kinds
+ALL_CODES = list(range(-1, 36)) + [36, 127, 128, 255, 256, 32767, -2, -128, -129, -32768] + \
+    [257, 259, 270, 271, 272, 291, 515, 32513, -255, -253, -242, -241, -240, -221]
 
 
 def rand_bytes(rng, lo, hi, alphabet=None):
